@@ -96,7 +96,7 @@ def adversarial_ids(rng, n):
     for _ in range(n):
         base = rng.choice(ADVERSARIAL[:30]) + str(rng.randint(0, 99))
         out += [base, base[:-1], base[1:], base.upper(), base.lower(), base + base[-1]]
-    out = [s for s in out if s and not any(ch.isspace() for ch in s)]
+    out = [s for s in dict.fromkeys(out) if s and not any(ch.isspace() for ch in s)]       # distinct identifiers
     return out
 
 
